@@ -114,7 +114,7 @@ impl Scenario for MhSupport {
         "mh_bounded_support"
     }
     fn runs(&self, tier: Tier) -> u64 {
-        tier.pick(4000, 200_000)
+        tier.pick(4000, 400_000)
     }
     fn generate(&self, g: &mut Gen, _t: Tier, _i: u64) -> Value {
         json!({"kind": g.range(0, 4), "c": fbits(g.f64_in(0.5, 3.0)), "d": g.usize(1, 4), "std": fbits(g.log_uniform(0.05, 20.0)), "wild": *g.pick(&[0u64, 0, 5, 20]), "asym": g.bool(1, 3), "seed": g.u64(), "steps": g.usize(50, 400), "inject_tiny_u": g.bool(1, 4)})
@@ -346,7 +346,7 @@ impl Scenario for HmcSupport {
         "hmc_bounded_support"
     }
     fn runs(&self, tier: Tier) -> u64 {
-        tier.pick(900, 50_000)
+        tier.pick(900, 100_000)
     }
     fn generate(&self, g: &mut Gen, _t: Tier, _i: u64) -> Value {
         let eps = match g.range(0, 9) {
@@ -468,7 +468,7 @@ impl Scenario for NutsSupport {
         "nuts_bounded_support"
     }
     fn runs(&self, tier: Tier) -> u64 {
-        tier.pick(500, 30_000)
+        tier.pick(500, 60_000)
     }
     fn generate(&self, g: &mut Gen, _t: Tier, _i: u64) -> Value {
         json!({"float": *g.pick(&["f32", "f64"]), "gseed": g.u64(), "seed": g.u64(), "n_collect": g.usize(1, 10), "n_discard": g.usize(0, 25), "accept": fbits(g.f64_in(0.55, 0.95))})
